@@ -23,8 +23,11 @@ Definition C05_strict_full : Prop :=
         scalars: nothing more).  Required keys, null at non-null, list structure, object shape, nested
         objects at any depth and __typename literals are enforced exactly.
         UNION-typed composite fields are included (the discriminated union is as strict as the members'
-        classes); INTERFACE-typed ones are not: the Literal of the base class contains the interface's own
-        name (C05_interface_self_typename_accepted below).
+        classes).  INTERFACE-typed ones are included when every possible type has its own inline fragment
+        and every type condition names the interface or a possible type (strict_sub); there the relaxed
+        relation's third parameter (self_ok = true, Exec.abs_candidates) makes the ONE exception explicit:
+        the interface's own name is admitted as runtime type, because the Literal of the generated base
+        class contains it (finding F8; C05_interface_self_typename_accepted, C05_interface_hypotheses_satisfiable).
         Guards beyond C01's (sels_strict): no __typename directly at the operation root (F29: plain str),
         no @skip/@include on a field of non-null type (its added Optional also admits an explicit null),
         every custom scalar used is configured (otherwise the annotation is Any, which admits null).
@@ -38,7 +41,7 @@ Theorem C05_strict_partial :
     no_basemodel own = true ->
     accepts n cls (schema_enums S) (AClass (pascal_s name)) j = true ->
     covers n cls (AClass (pascal_s name)) j = true ->
-    exists fc0, forall fc, fc >= fc0 -> conf_op_gen lax_leaf false fc S frs root sels j = true.
+    exists fc0, forall fc, fc >= fc0 -> conf_op_gen lax_leaf false true fc S frs root sels j = true.
 Proof. exact op_strict. Qed.
 Print Assumptions C05_strict_partial.
 
@@ -50,7 +53,7 @@ Theorem C05_strict_partial_rejects :
     all_classes fuel C S frs (DOp kind name [] sels) = Ok cls ->
     op_ok g true C S frs root sels = true -> sels_strict gs C S frs false root sels = true ->
     no_basemodel own = true ->
-    (forall fc, conf_op_gen lax_leaf false fc S frs root sels j = false) ->
+    (forall fc, conf_op_gen lax_leaf false true fc S frs root sels j = false) ->
     covers n cls (AClass (pascal_s name)) j = true ->
     accepts n cls (schema_enums S) (AClass (pascal_s name)) j = false.
 Proof. exact op_strict_rejects. Qed.
@@ -69,7 +72,7 @@ Theorem C05_strict_partial_mixins :
     n >= F + g + 2 ->
     accepts n cls (schema_enums S) (AClass (pascal_s name)) j = true ->
     covers n cls (AClass (pascal_s name)) j = true ->
-    exists fc0, forall fc, fc >= fc0 -> conf_op_gen lax_leaf false fc S frs root sels j = true.
+    exists fc0, forall fc, fc >= fc0 -> conf_op_gen lax_leaf false true fc S frs root sels j = true.
 Proof. exact op_strict_mix. Qed.
 Print Assumptions C05_strict_partial_mixins.
 
@@ -77,13 +80,13 @@ Print Assumptions C05_strict_partial_mixins.
 Theorem C05_object_strict :
   forall C S frs fuel g gs nested pub cn tn sels at_ tv out pub' cs kv n,
     parse_type_def fuel C S frs pub cn tn sels at_ [] tv = Ok (out, pub', false) ->
-    sels_ok g true C S frs nested tn tn sels = true -> sels_strict gs C S frs nested tn sels = true ->
+    sels_ok g true C S frs at_ tn tn sels = true -> sels_strict gs C S frs nested tn sels = true ->
     (at_ = true -> has_typename sels = true) ->
     tv = (if nested then Some [tn] else None) -> table_ok cs out ->
     accepts n cs (schema_enums S) (AClass cn) (JObj kv) = true ->
     covers n cs (AClass cn) (JObj kv) = true ->
     exists fc0, forall fc, fc >= fc0 ->
-      conf_obj_gen false (conf_val_gen lax_leaf false fc S frs) S tn
+      conf_obj_gen false (conf_val_gen lax_leaf false true fc S frs) S tn
                    (collect_scopes fc S frs tn [(false, sels)]) kv = true.
 Proof. exact obj_strict. Qed.
 Print Assumptions C05_object_strict.
@@ -92,7 +95,7 @@ Print Assumptions C05_object_strict.
    response, and on non-null values the generated scalar annotation accepts exactly lax_leaf *)
 Theorem C05_lax_contains_conformant :
   forall fc S frs root sels j,
-    conf_op fc S frs root sels j = true -> conf_op_gen lax_leaf false fc S frs root sels j = true.
+    conf_op fc S frs root sels j = true -> conf_op_gen lax_leaf false true fc S frs root sels j = true.
 Proof. exact conf_op_lax. Qed.
 Print Assumptions C05_lax_contains_conformant.
 
@@ -220,7 +223,7 @@ Example C05_partial_hypotheses_satisfiable :
      accepts 11 cls (schema_enums SY) (AClass (pascal_s "GetPeople")) j = true /\
      covers 11 cls (AClass (pascal_s "GetPeople")) j = true /\
      conf_op 10 SY [] "Query" selsY j = false /\
-     conf_op_gen lax_leaf false 10 SY [] "Query" selsY j = true) /\
+     conf_op_gen lax_leaf false true 10 SY [] "Query" selsY j = true) /\
     (* corruptions are rejected *)
     accepts 11 cls (schema_enums SY) (AClass (pascal_s "GetPeople"))
             (userY (JStr "User") JNull (JObj [("city", JStr "X")])) = false /\
@@ -316,6 +319,46 @@ Example C05_interface_self_typename_accepted :
     all_classes 20 C0 SI [] (DOp "query" "Q" [] selsI) = Ok cls /\
     let j := JObj [("named", JObj [("__typename", JStr "Named"); ("name", JStr "n")])] in
     conf_op 20 SI [] "Query" selsI j = false /\
-    conf_op_gen lax_leaf false 20 SI [] "Query" selsI j = false /\
+    conf_op_gen lax_leaf false false 20 SI [] "Query" selsI j = false /\
+    conf_op_gen lax_leaf false true 20 SI [] "Query" selsI j = true /\
     accepts 20 cls (schema_enums SI) (AClass "Q") j = true /\ covers 20 cls (AClass "Q") j = true.
 Proof. eexists. split; [vm_compute; reflexivity|]. vm_compute. repeat split. Qed.
+
+(* ---- an interface position inside the strictness theorem: every possible type has a variant; the
+        interface's own name is the one accepted non-conformant __typename, and the relaxed relation
+        (self_ok = true) says so ---- *)
+Definition SI2 : schema :=
+  {| s_types := [("Query", DObject [] [("named", TNamed "Named")]);
+                 ("Named", DInterface [] [("name", TNamed "String")]);
+                 ("A", DObject ["Named"] [("name", TNamed "String"); ("x", TNamed "Int")]);
+                 ("Int", DScalar); ("String", DScalar)];
+     s_query := Some "Query"; s_mutation := None; s_subscription := None |}.
+Definition selsI2 : list sel :=
+  [SField None "named" false []
+     (Some [SField None "__typename" false [] None; SField None "name" false [] None;
+            SInline (Some "A") false [SField None "x" false [] None]])].
+Example C05_interface_hypotheses_satisfiable :
+  exists own pub' cls,
+    root_type_name SI2 "query" = Ok "Query" /\
+    op_parse 10 C0 SI2 [] "query" "Q" [] selsI2 = Ok (own, pub', false) /\
+    all_classes 10 C0 SI2 [] (DOp "query" "Q" [] selsI2) = Ok cls /\
+    op_ok 10 true C0 SI2 [] "Query" selsI2 = true /\ sels_strict 10 C0 SI2 [] false "Query" selsI2 = true /\
+    no_basemodel own = true /\
+    (let j := JObj [("named", JObj [("__typename", JStr "A"); ("name", JStr "n"); ("x", JInt 1)])] in
+     accepts 12 cls (schema_enums SI2) (AClass "Q") j = true /\ covers 12 cls (AClass "Q") j = true /\
+     conf_op 10 SI2 [] "Query" selsI2 j = true) /\
+    (let j := JObj [("named", JObj [("__typename", JStr "Named"); ("name", JStr "n")])] in
+     accepts 12 cls (schema_enums SI2) (AClass "Q") j = true /\ covers 12 cls (AClass "Q") j = true /\
+     conf_op 10 SI2 [] "Query" selsI2 j = false /\
+     conf_op_gen lax_leaf false true 10 SI2 [] "Query" selsI2 j = true) /\
+    accepts 12 cls (schema_enums SI2) (AClass "Q")
+            (JObj [("named", JObj [("__typename", JStr "B"); ("name", JStr "n")])]) = false /\
+    accepts 12 cls (schema_enums SI2) (AClass "Q")
+            (JObj [("named", JObj [("__typename", JStr "A"); ("name", JStr "n"); ("x", JStr "no")])]) = false.
+Proof.
+  do 3 eexists.
+  split; [reflexivity|].
+  split; [vm_compute; reflexivity|].
+  split; [vm_compute; reflexivity|].
+  vm_compute. repeat split.
+Qed.
